@@ -225,6 +225,17 @@ func ruleTableNeedsDash(w *World, r *Report) {
 				key := fmt.Sprintf("%s: alignment append #%d", w.FnKey(fn), n)
 				okDash, why := false, "no dominating regular-expression match"
 				for _, cf := range dominatingConds(b) {
+					// the classification of a column extracted into a helper: `a, ok := helper(col); if !ok {…}` — the
+					// helper reports ok == true only under a match of a pattern that requires '-'
+					for _, at := range condAtoms(cf.If.Cond, cf.Truth) {
+						if ex, isEx := at.V.(*ssa.Extract); isEx && at.Truth {
+							if hc, isCall := ex.Tuple.(*ssa.Call); isCall {
+								if h := hc.Common().StaticCallee(); h != nil && w.InModule(h) && h.Blocks != nil && w.okOnlyUnderDashMatch(h, ex.Index) {
+									okDash = true
+								}
+							}
+						}
+					}
 					if !cf.Truth {
 						continue
 					}
@@ -490,4 +501,61 @@ func ruleLinkifyNeedsItsTriggers(w *World, r *Report) {
 		}
 	}
 	r.Expect("WWW match attempts", n, 1)
+}
+
+// dashMatchDominates: blk is dominated by the true edge of a Match of a package-level regexp, compiled from one
+// constant, every match of which contains '-'.
+func (w *World) dashMatchDominates(blk *ssa.BasicBlock) bool {
+	for _, cf := range dominatingConds(blk) {
+		if !cf.Truth {
+			continue
+		}
+		mc, ok := cf.If.Cond.(*ssa.Call)
+		if !ok {
+			continue
+		}
+		cal := mc.Common().StaticCallee()
+		if cal == nil || !strings.HasPrefix(cal.String(), "(*regexp.Regexp).Match") {
+			continue
+		}
+		ld, ok := mc.Common().Args[0].(*ssa.UnOp)
+		if !ok || ld.Op != token.MUL {
+			continue
+		}
+		g, ok := ld.X.(*ssa.Global)
+		if !ok {
+			continue
+		}
+		pat, ok := w.globalRegexpPattern(g)
+		if !ok {
+			continue
+		}
+		re, err := syntax.Parse(pat, syntax.Perl)
+		if err == nil && requiresByte(re.Simplify(), '-') {
+			return true
+		}
+	}
+	return false
+}
+
+// okOnlyUnderDashMatch: in helper h every return whose idx-th result can be true is dominated by a dash-requiring match.
+func (w *World) okOnlyUnderDashMatch(h *ssa.Function, idx int) bool {
+	sawTrue := false
+	for _, b := range h.Blocks {
+		ret, ok := b.Instrs[len(b.Instrs)-1].(*ssa.Return)
+		if !ok || idx >= len(ret.Results) {
+			continue
+		}
+		for _, leaf := range phiLeaves(ret.Results[idx]) {
+			v, isC := constBool(leaf)
+			if isC && !v {
+				continue
+			}
+			sawTrue = true
+			if !isC || !w.dashMatchDominates(b) {
+				return false
+			}
+		}
+	}
+	return sawTrue
 }
